@@ -30,7 +30,7 @@ def addExclusionClause (sid : SoR) (reason : Nat) : M Nat := do
   modify fun s => { s with negAssertions := s.negAssertions ++ [(v, id)] }
   let s ← get
   if valueOf s v == some true then
-    emit s!"conflicting {id}"
+    emit (.conflicting id)
     modify fun s => { s with conflicting := s.conflicting ++ [id] }
   pure v
 
@@ -103,8 +103,7 @@ def onRequirementCandidates (U : Universe) (sid : SoR) (r : Req) (candidates : L
       | some w => (some ((pvar, false), (w, true)), false)
       | none => (some ((pvar, false), (first, true)), true)
   let id ← allocClause (.requires pvar r) watch
-  let groups := vsVars.foldl (fun acc g => acc ++ " |" ++ g.foldl (fun a v => a ++ s!" {v}") "") ""
-  emit s!"cands {id} {if conflict then 1 else 0}{groups}"
+  emit (.cands id conflict vsVars)
   startWatching id
   modify fun s =>
     let rc := match s.requiresClauses.lookup pvar with
@@ -131,7 +130,7 @@ def onConstraintCandidates (sid : SoR) (vs : Nat) (cands : List Nat) : M Unit :=
     | some _ => startWatching id
     | none => modify fun s => { s with negAssertions := s.negAssertions ++ [(pvar, id)] }
     if conflict then
-      emit s!"conflicting {id}"
+      emit (.conflicting id)
       modify fun s => { s with conflicting := s.conflicting ++ [id] }
 
 /-- run one queued task (the future completes at once in sync mode) and its callback -/
